@@ -16,7 +16,10 @@ Observation points (no instrumentation inside fickling):
   * an instrumented stream object logging every read/readline/readinto/seek/tell with the phase of the
     call it happened in; "swap" streams serve a different (sink-calling) content once the parse is over;
   * the phase flips from "parse" to "after" when Pickled.load returns / check_safety is entered
-    (thin wrappers on those two names, installed from outside).
+    (thin wrappers on those two names, installed from outside); the wrapper on check_safety also
+    remembers WHICH Pickled object the loader analyses, so that its decompiled program can be compared
+    with the program of the bytes handed to the stock unpickler;
+  * "flaky" streams (c02_streams.Flaky) answer a re-read of a region with different bytes.
 After the checked load the child computes, with the untouched originals, the reference facts the
 property is stated against: the stock unpickler's value / exception / find_class events on the first
 pickle's bytes, and the verdict (or failure) of the analysis on them."""
@@ -101,6 +104,7 @@ from fickling.analysis import Severity  # noqa: E402
 from fickling.analysis import check_safety as REAL_CHECK  # noqa: E402
 from fickling.exception import UnsafeFileError  # noqa: E402
 import verif_sink  # noqa: E402
+from c02_streams import Flaky  # noqa: E402
 
 SEVS = list(Severity)
 REAL_PARSE = ffickle.Pickled.load
@@ -117,9 +121,22 @@ ffickle.Pickled.load = staticmethod(_parse_wrapper)
 _LOADER_CHECK = floader.check_safety
 
 
+ANALYSED = [None]
+
+
 def _check_wrapper(*a, **k):
     PHASE[0] = "after"
+    ANALYSED[0] = k.get("pickled", a[0] if a else None)      # the object the loader has analysed
     return _LOADER_CHECK(*a, **k)
+
+
+def program_text(pickled):
+    """the decompiled program of a Pickled object = what the analyses look at"""
+    import ast
+    try:
+        return ast.unparse(pickled.ast)
+    except BaseException as e:  # noqa: BLE001
+        return "<no program: %s>" % type(e).__name__
 
 
 floader.check_safety = _check_wrapper
@@ -161,44 +178,6 @@ class Instr:
             self.log.append([PHASE[0], "seek!"])
             raise io.UnsupportedOperation("not seekable")
         return self._cur("seek").seek(pos, whence)
-
-
-class Flaky:
-    """OBSERVATION ONLY (outside the quantifier of C02): a seekable stream that serves `alt` for any
-    region that has been read before -- i.e. content that changes DURING Pickled.load, between the
-    tokeniser's read of an opcode and fickling's re-read of the same bytes"""
-
-    def __init__(self, good, alt):
-        assert len(good) == len(alt)
-        self._good, self._alt, self._pos, self._high = good, alt, 0, 0
-        self.log = []
-
-    def _take(self, n):
-        src = self._alt if self._pos < self._high else self._good
-        out = src[self._pos:self._pos + n]
-        self._pos += len(out)
-        self._high = max(self._high, self._pos)
-        return out
-
-    def read(self, n=-1):
-        self.log.append([PHASE[0], "read"])
-        return self._take(len(self._good) if n is None or n < 0 else n)
-
-    def readline(self, n=-1):
-        self.log.append([PHASE[0], "readline"])
-        src = self._alt if self._pos < self._high else self._good
-        i = src.find(b"\n", self._pos)
-        return self._take((i + 1 if i >= 0 else len(src)) - self._pos)
-
-    def tell(self):
-        return self._pos
-
-    def seekable(self):
-        return True
-
-    def seek(self, pos, whence=0):
-        self._pos = pos
-        return pos
 
 
 class NoAttr:
@@ -259,7 +238,7 @@ def make_stream(case, scratch):
         s = Instr(content, off, evil=evil, can_seek=False)
         return s, s, None
     if k == "flaky":
-        s = Flaky(content, evil)
+        s = Flaky(content, evil, phase=lambda: PHASE[0])
         return s, s, None
     raise ValueError(k)
 
@@ -312,6 +291,7 @@ def reset():
     del EVENTS[:]
     REC["loads"] = []
     REC["load"] = 0
+    ANALYSED[0] = None
     PHASE[0] = "parse"
 
 
@@ -385,6 +365,18 @@ def run_case(case, scratch):
         except Exception:  # noqa: BLE001
             out["file_pos"] = None
         fobj.close()
+    analysed = ANALYSED[0]
+    handed = None
+    if out["loads"] and not out["loads"][0].startswith("<"):
+        handed = bytes.fromhex(out["loads"][0])
+    if analysed is not None:
+        # what was analysed vs what the bytes handed to the stock unpickler decompile to
+        out["analysed_src"] = program_text(analysed)
+        if handed is not None:
+            try:
+                out["exec_src"] = program_text(REAL_PARSE(handed))
+            except BaseException as e:  # noqa: BLE001
+                out["exec_src"] = "<no parse: %s>" % type(e).__name__
     if case.get("prefix") is not None:
         out["ref"] = reference(bytes.fromhex(case["prefix"]))
     return out
